@@ -139,7 +139,7 @@ func c11r2(w *World, rr *RuleRun) {
 		m := peerStoreMethod(w, name)
 		for _, site := range w.AllCallsTo(w.P.LibFuncs, m) {
 			if callInstrCommon(site).IsInvoke() {
-				rr.At(w, site, "configured peer store used only by the query handler", within(site.Parent(), h.fn), "in "+shortFuncName(site.Parent()))
+				rr.At(w, site, "configured peer store used only by the query handler", w.withinUp(site.Parent(), h.fn), "in "+shortFuncName(site.Parent()))
 			}
 		}
 	}
@@ -169,7 +169,7 @@ func c11r3(w *World, rr *RuleRun) {
 			good = a0.Op == OpCall && strings.HasSuffix(a0.Name, ".IP") && termEq(a0.Args[0], h.source) &&
 				a1.Op == OpField && a1.Obj == argsWant && isCall(a2, getPeers)
 		}
-		rr.At(w, st, "Return.Values assigned only from filterPeers(source.IP(), args.want, store.GetPeers(ih))", good && within(st.Parent(), h.fn), det)
+		rr.At(w, st, "Return.Values assigned only from filterPeers(source.IP(), args.want, store.GetPeers(ih))", good && w.withinUp(st.Parent(), h.fn), det)
 	}
 	// inside filterPeers: each append is family-gated
 	srn := w.P.Func("shouldReturnNodes")
